@@ -65,6 +65,9 @@ MC_MenuQ2 == [r \in MC_Reqs2 |->
 MC_MenuQ3 == [r \in MC_Reqs2 |->
    IF r = 1 THEN {D_Create("t2")}
    ELSE {D_Produce(TP("t2", 0)), D_InitPid}]
+MC_Reqs1 == {1}
+MC_Menu1 == [r \in MC_Reqs1 |-> {D_Produce(TP("t1", 0)), D_List(<<TP("t1", 0), TP("t1", 1)>>), D_Commit, D_Meta(<<"t2", "t1">>), D_MetaAll,
+                                 D_Create("t2"), D_InitPid, D_FindCoord}]
 MC_Reqs0 == {}
 MC_Menu0 == << >>
 
